@@ -2,7 +2,7 @@ import BSModel.Driver.Util
 import BSModel.Model.Depth
 /-! line protocol of C11 (call-depth accounting)
 
-    c11 depth <new|old> <rootkx> <midname> <k> (<op>:<recv>:<linked>)*k <event>*
+    c11 depth <new|old> <rootkx> <midname> <pre codes> <container codes> <k> (<op>:<recv>:<linked>)*k <event>*
         the accounting of each <op> on the tree the events describe; reply: k numbers
 
     event  := o<name>.<attrs>.<kx>.<void> | c | ci (closed implicitly: no end tag in the markup) | t<text id>
@@ -11,6 +11,8 @@ import BSModel.Model.Depth
     rootkx := 1 when the root was made with a builder (a BeautifulSoup object), 0 for a builder-less root tag
     midname := name code of the tag the harness calls `mid` (used by the name+string searches)
     linked := 1 when the root object's next_element points into the tree (after insert(0, …) / on a copy)
+
+    c11 events <recv> <event>*      the code mirror of `_event_stream` on the receiver: "<mirror events> | <skeleton> | <cost> <evCmp>"
 
     The tree is assembled from the events with an explicit stack (no recursion on the nesting). Reply: a number,
     or `bad-…`. -/
@@ -75,14 +77,14 @@ def preNames : Names := { isPre := fun n => n == 6 || n == 9, isSc := fun n => n
 def q0 : Query := ⟨none, false, false, none, false⟩
 
 /-- the harness' operation names -/
-def opDepth (cfg : Cfg) (op : String) (linked : Bool) (root : Loc) (l : Loc) (midName : Nat) (evs : List Ev) : Option Nat :=
+def opDepth (cfg : Cfg) (preNames : Names) (op : String) (linked : Bool) (root : Loc) (l : Loc) (midName : Nat) (evs : List Ev) : Option Nat :=
   let parent : Loc := ⟨l.anc.drop 1, [], .tag 0 0 (l.anc.headD true) false l.sibs⟩
   let fresh : Loc := ⟨[], [], .tag 8 0 (kxOf root.node) false []⟩
   let s : Loc := ⟨[], [], .str 0⟩
   let allNodes := (descs root.anc root.node).map (·.node)
   let big := 1000000000
   match op with
-  | "parse" | "parse_bytes" | "parse_strainer" | "parse_invariant" => some (parseDepth preNames big evs)
+  | "parse" | "parse_bytes" | "parse_strainer" | "parse_invariant" | "parse_state_clean" => some (parseDepth preNames big evs)
   | "decode" | "decode_html" | "decode_fn" | "decode_mid" | "decode_inner" => some (decodeDepth cfg l)
   | "encode" | "encode_inner" => some (encodeDepth cfg l)
   | "prettify" | "prettify_enc" => some (prettifyDepth cfg l)
@@ -96,8 +98,8 @@ def opDepth (cfg : Cfg) (op : String) (linked : Bool) (root : Loc) (l : Loc) (mi
   | "deepcopy" => some (call (deepcopyDepth cfg false l))
   | "doc_copy" => some (copyDepth cfg true l)
   | "doc_deepcopy" => some (call (deepcopyDepth cfg true l))
-  | "doc_pickle" | "doc_pickle_insert0" => some (pickleDepth cfg preNames big linked l)
-  | "doc_pickle_copy" => some (max (copyDepth cfg true l) (pickleDepth cfg preNames big linked l))
+  | "doc_pickle" | "doc_pickle_insert0" | "doc_pickle_py" | "doc_pickle_py_insert0" => some (pickleDepth cfg preNames big linked (feedState preNames big evs) l)
+  | "doc_pickle_copy" | "doc_pickle_py_copy" => some (max (copyDepth cfg true l) (pickleDepth cfg preNames big linked (feedState preNames big evs) l))
   | "get_text" | "get_text_sep_strip" | "text" | "doc_get_text" => some (getTextDepth l)
   | "strings" | "stripped_strings" => some (call (allStringsDepth l))
   | "string_getter" | "string_getter_mid" => some (stringDepth cfg l.node)
@@ -121,34 +123,50 @@ def opDepth (cfg : Cfg) (op : String) (linked : Bool) (root : Loc) (l : Loc) (mi
     some (call (findAxisDepth cfg { q0 with name := some 99 } allNodes))
   | "descendants" => some (descGenDepth l)
   | "next_elements" | "previous_elements" | "parents" => some (call (loop0 allNodes))
-  | "extract_inner" | "extract_mid" | "extract_top" | "extract_last_child" => some (extractDepth l)
-  | "replace_last_child" => some (replaceWithDepth parent l [s])
-  | "decompose_top" | "decompose_mid" => some (decomposeDepth l)
-  | "clear_top" => some (clearDepth l false)
-  | "clear_decompose" => some (clearDepth l true)
-  | "unwrap_mid" | "unwrap_top" => some (unwrapDepth parent l)
-  | "wrap_mid" => some (wrapDepth parent l fresh)
-  | "replace_with_mid" => some (replaceWithDepth parent l [fresh, s])
-  | "insert_before_inner" | "insert_after_inner" | "insert_after_mid" => some (insertBesideDepth parent l [s, fresh])
-  | "append_inner" | "append_top" | "move_subtree" => some (appendDepth l fresh false)
-  | "insert0_top" | "insert0_root" => some (insertDepth l [fresh, s] false)
-  | "extend_mid" => some (extendDepth l [s, fresh, s])
-  | "index" | "tw_index" | "tw_index_last" => some (indexDepth (kidsOf l.node))
+  | "extract_inner" | "extract_mid" | "extract_top" | "extract_last_child" => some (extractDepth idTest l)
+  | "replace_last_child" => some (replaceWithDepth idTest parent l [s])
+  | "decompose_top" | "decompose_mid" => some (decomposeDepth idTest l)
+  | "clear_top" => some (clearDepth idTest l false)
+  | "clear_decompose" => some (clearDepth idTest l true)
+  | "unwrap_mid" | "unwrap_top" => some (unwrapDepth idTest parent l)
+  | "wrap_mid" => some (wrapDepth idTest parent l fresh)
+  | "replace_with_mid" => some (replaceWithDepth idTest parent l [fresh, s])
+  | "insert_before_inner" | "insert_after_inner" | "insert_after_mid" => some (insertBesideDepth idTest parent l [s, fresh])
+  | "append_inner" | "append_top" | "move_subtree" => some (appendDepth idTest l fresh false)
+  | "insert0_top" | "insert0_root" => some (insertDepth idTest l [fresh, s] false)
+  | "extend_mid" => some (extendDepth idTest l [s, fresh, s])
+  | "nc_extend_tag" => some (extendDepth idTest l [l, l])
+  | "str_extract" | "str_decompose" => some (decomposeDepth idTest l)
+  | "str_replace_with" => some (replaceWithDepth idTest parent l [s, fresh])
+  | "str_insert_before" | "str_insert_after" => some (insertBesideDepth idTest parent l [s])
+  | "str_wrap" => some (wrapDepth idTest parent l fresh)
+  | "str_find_parents" | "str_find_all_previous" => some (findAxisDepth cfg { q0 with name := some 1 } allNodes)
+  | "str_find_parent" | "str_find_next" => some (call (findAxisDepth cfg { q0 with name := some 99 } allNodes))
+  | "str_get_text" => some (getTextDepth l)
+  | "str_output_ready" => some (call (call (formatterForNameDepth cfg l)))
+  | "str_copy" => some (call (call cStrNew))
+  | "after_move_decode" => some (max (appendDepth idTest l fresh false) (max (decodeDepth cfg l) (getTextDepth l)))
+  | "after_wrap_decode" => some (max (wrapDepth idTest parent l fresh) (max (prettifyDepth cfg l) (findAllDepth cfg { q0 with name := some 1, str := true } l)))
+  | "after_unwrap_copy" => some (max (unwrapDepth idTest parent l) (copyDepth cfg false l))
+  | "after_replace_decode" => some (max (replaceWithDepth idTest parent l [l]) (max (decodeDepth cfg l) (smoothDepth cfg l)))
+  | "api_build" => some (max (appendDepth idTest l fresh false) (call cTagInit))
+  | "doc_pickle_proto2" => some (pickleDepth cfg preNames big linked (feedState preNames big evs) l)
+  | "index" | "tw_index" | "tw_index_last" => some (indexDepth idTest (kidsOf l.node) l.node)
   -- an argument that is a near copy of the receiver is, for the accounting, just another element: identity tests only
   | "nc_replace_with" | "nc_replace_with_exact" | "nc_replace_with_top" | "nc_replace_with_parentcopy"
-  | "tw_replace_with" | "tw_replace_with_sibling" => some (replaceWithDepth parent l [l])
-  | "nc_replace_with_two" => some (replaceWithDepth parent l [l, l])
+  | "tw_replace_with" | "tw_replace_with_sibling" => some (replaceWithDepth idTest parent l [l])
+  | "nc_replace_with_two" => some (replaceWithDepth idTest parent l [l, l])
   | "nc_insert_before" | "nc_insert_before_exact" | "nc_insert_after" | "tw_insert_before" | "tw_insert_after" =>
-    some (insertBesideDepth parent l [l, l])
-  | "nc_append_to_parent" | "nc_append_into_self" | "nc_append_child_of_copy" | "tw_move_first_to_end" => some (appendDepth l l false)
-  | "nc_insert0_parent" | "nc_insert_two" | "tw_insert_existing" => some (insertDepth parent [l, l] false)
-  | "nc_extend" => some (extendDepth parent [l, l])
-  | "nc_wrap_in_copy" | "tw_wrap" => some (wrapDepth parent l l)
-  | "nc_extract_before_parentcopy" | "tw_extract" | "tw_extract_last" => some (extractDepth l)
-  | "tw_unwrap" => some (unwrapDepth parent l)
-  | "tw_decompose" => some (decomposeDepth l)
-  | "tw_clear" => some (clearDepth l false)
-  | "tw_string_setter" => some (stringSetDepth l)
+    some (insertBesideDepth idTest parent l [l, l])
+  | "nc_append_to_parent" | "nc_append_into_self" | "nc_append_child_of_copy" | "tw_move_first_to_end" => some (appendDepth idTest l l false)
+  | "nc_insert0_parent" | "nc_insert_two" | "tw_insert_existing" => some (insertDepth idTest parent [l, l] false)
+  | "nc_extend" => some (extendDepth idTest parent [l, l])
+  | "nc_wrap_in_copy" | "tw_wrap" => some (wrapDepth idTest parent l l)
+  | "nc_extract_before_parentcopy" | "tw_extract" | "tw_extract_last" => some (extractDepth idTest l)
+  | "tw_unwrap" => some (unwrapDepth idTest parent l)
+  | "tw_decompose" => some (decomposeDepth idTest l)
+  | "tw_clear" => some (clearDepth idTest l false)
+  | "tw_string_setter" => some (stringSetDepth idTest l)
   | "tw_smooth" => some (smoothDepth cfg l)
   | "tw_decode" => some (decodeDepth cfg l)
   | "tw_decode_parent" => some (prettifyDepth cfg l)
@@ -156,28 +174,84 @@ def opDepth (cfg : Cfg) (op : String) (linked : Bool) (root : Loc) (l : Loc) (mi
   | "tw_find_all" => some (findAllDepth cfg { q0 with name := some midName } l)
   | "tw_find_next_siblings" => some (findAxisDepth cfg { q0 with name := some midName } allNodes)
   | "tw_copy_parent" => some (copyDepth cfg false l)
-  | "smooth" | "doc_smooth" => some (max (appendDepth l s false) (smoothDepth cfg l))
-  | "string_setter_mid" | "string_setter_inner" => some (stringSetDepth l)
+  | "smooth" | "doc_smooth" => some (max (appendDepth idTest l s false) (smoothDepth cfg l))
+  | "string_setter_mid" | "string_setter_inner" => some (stringSetDepth idTest l)
   | "len_bool_iter" | "contains_str" | "contains_child" => some (call (loop0 (kidsOf l.node)))
   -- positive control (inherently recursive, outside the property): `tag == copy.copy(tag)`
   | "eq_copy" => some (max (copyDepth cfg false l) (call (eqDepth l.node l.node)))
   | _ => none
 
 /-- `<op>:<recv>:<linked>` -/
-def oneOp (cfg : Cfg) (root : Loc) (tags : List Loc) (midName : Nat) (evs : List Ev) (spec : String) : String :=
+def oneOp (cfg : Cfg) (nm : Names) (root : Loc) (tags : List Loc) (midName : Nat) (evs : List Ev) (spec : String) : String :=
   match spec.splitOn ":" with
   | [op, recv, linked] =>
     let loc : Option Loc := if recv == "r" then some root else tags[recv.toNat!]?
     match loc with
     | none => "bad-recv"
     | some l =>
-      match opDepth cfg op (linked == "1") root l midName evs with
+      match opDepth cfg nm op (linked == "1") root l midName evs with
       | some d => toString d
       | none => "bad-op"
   | _ => "bad-spec"
 
+def showEvt : Evt → String
+  | .start i => s!"S{i}"
+  | .end i => s!"E{i}"
+  | .empty i => s!"X{i}"
+  | .string i => s!"T{i}"
+
+/-- `events <recv> <event>*` (recv: `r` = the hidden document object, `<k>` = the k-th tag, `c<k>` = that tag with
+    `iterator=self.descendants`): the code mirror of `_event_stream` on the receiver's subtree (identities = positions in
+    document order below the receiver), then the recursive skeleton, then the deepest comparison of the `!=` variant -/
+def handleEvents (recv : String) (toks : List String) : String :=
+  match buildTree true toks with
+  | none => "bad-events"
+  | some rootNode =>
+    let tags := (descs [] rootNode).filter (fun d => isTag d.node)
+    let contents := recv == "r" || recv.startsWith "c"
+    let idx := if recv.startsWith "c" then (recv.drop 1).toString else recv
+    match (if recv == "r" then some rootNode else (tags[idx.toNat!]?).map (·.node)) with
+    | none => "bad-recv"
+    | some t =>
+      let r := if contents then eventStreamContentsImpl repaired t else eventStreamImpl repaired t
+      let o := if contents then eventStreamContentsImpl unrepaired t else eventStreamImpl unrepaired t
+      let spec := if contents then evSpecL 1 (kidsOf t) else evSpecN 0 t
+      let ch := if contents then evCmpContents unrepaired t else evCmp unrepaired t
+      " ".intercalate (r.1.map showEvt) ++ " | " ++ " ".intercalate (spec.map showEvt) ++ " | " ++
+        toString o.2 ++ " " ++ toString ch
+
+def showVal : Val → String
+  | .flat => "flat"
+  | .self => "self"
+  | .tree _ => "tree"
+
+def showDict (d : List Field) : String := " ".intercalate (d.map (fun f => f.key.name ++ "=" ++ showVal f.val))
+
+/-- `state <new|old> <linked> <haskids> <mostrecent> <pre codes> <container codes> <event>*`: the document object's
+    `__dict__` after parsing the markup these events stand for (then linked or not), and what `__getstate__` makes of it -/
+def handleState (variant linked haskids mostrecent prel scl : String) (toks : List String) : String :=
+  let cfg := if variant == "old" then unrepaired else repaired
+  let nm : Names := { isPre := (natList "," prel).contains, isSc := (natList "," scl).contains }
+  let ps := feedState nm 1000000000 (toksToEvs toks [])
+  let d := soupDict ps (haskids == "1") (linked == "1") (mostrecent == "1")
+  showDict d ++ " | " ++ showDict (getstateImpl cfg d)
+
+def optNat (s : String) : Option Nat := if s == "-" then none else s.toNat?
+
+/-- `reads <name|-> <other: 0 none, 1 matches, 2 does not match> <attrs|-> <str> <event>*`: the positions (document
+    order below the document object) of the tags whose `.string` a `find_all` with these criteria reads -/
+def handleReads (name other attrs str : String) (toks : List String) : String :=
+  match buildTree true toks with
+  | none => "bad-events"
+  | some rootNode =>
+    let q : Query := ⟨optNat name, other != "0", other == "1", optNat attrs, str == "1"⟩
+    showL (stringReads q rootNode)
+
 def handle : List String → String
-  | "depth" :: variant :: rootkx :: midname :: nops :: rest =>
+  | "events" :: recv :: toks => handleEvents recv toks
+  | "reads" :: name :: other :: attrs :: str :: toks => handleReads name other attrs str toks
+  | "state" :: variant :: linked :: haskids :: mostrecent :: prel :: scl :: toks => handleState variant linked haskids mostrecent prel scl toks
+  | "depth" :: variant :: rootkx :: midname :: prel :: scl :: nops :: rest =>
     let cfg := if variant == "old" then unrepaired else repaired
     let k := nops.toNat!
     let specs := rest.take k
@@ -186,7 +260,8 @@ def handle : List String → String
     | some rootNode =>
       let root : Loc := ⟨[], [rootNode], rootNode⟩
       let tags := (descs [] rootNode).filter (fun d => isTag d.node)
-      " ".intercalate (specs.map (oneOp cfg root tags midname.toNat! (toksToEvs (rest.drop k) [])))
+      let nm : Names := { isPre := (natList "," prel).contains, isSc := (natList "," scl).contains }
+      " ".intercalate (specs.map (oneOp cfg nm root tags midname.toNat! (toksToEvs (rest.drop k) [])))
   | _ => "bad-op"
 
 end BS.Drv.C11
